@@ -20,6 +20,7 @@ static struct cmd cmds[] = {
   {"c08", cmd_c08},
   {"c16", cmd_c16},
   {"c17", cmd_c17},
+  {"c19", cmd_c19},
   {NULL, NULL}
 };
 int main(int argc, char **argv) {
